@@ -337,6 +337,7 @@ func registerVerifrt() {
 	ext(p+"Preemptions", func(fr *frame, a []value) value { S.preempt = int(asInt64(a[0])); return nil })
 	ext(p+"TickLimit", func(fr *frame, a []value) value { S.tickLimit = int(asInt64(a[0])); return nil })
 	ext(p+"SchedDeterministic", func(fr *frame, a []value) value { S.deterministic = a[0].(bool); return nil })
+	ext(p+"AtomicSwitch", func(fr *frame, a []value) value { S.atomicSwitch = a[0].(bool); return nil })
 	ext(p+"TimersNondet", func(fr *frame, a []value) value { S.timersNondet = a[0].(bool); return nil })
 	ext(p+"Concretize", func(fr *frame, a []value) value { return concretizeInt(a[0], "Concretize") })
 	ext(p+"IsSymbolicRun", func(fr *frame, a []value) value { return true })
@@ -474,6 +475,15 @@ func atomicField(p value) *value {
 func registerAtomic() {
 	for _, tn := range []string{"Int32", "Int64", "Uint32", "Uint64", "Uintptr", "Pointer"} {
 		tn := tn
+		// with verifrt.AtomicSwitch(true) every atomic operation is a scheduling point
+		ext := func(name string, f externalFn) {
+			ext(name, func(fr *frame, a []value) value {
+				if S.atomicSwitch {
+					S.switchPoint("atomic")
+				}
+				return f(fr, a)
+			})
+		}
 		ext("sync/atomic.Load"+tn, func(fr *frame, a []value) value { return *derefCell(a[0]) })
 		ext("sync/atomic.Store"+tn, func(fr *frame, a []value) value { *derefCell(a[0]) = a[1]; return nil })
 		ext("sync/atomic.Swap"+tn, func(fr *frame, a []value) value {
